@@ -10,10 +10,12 @@ props = [json.loads(l) for l in open(os.path.join(HOME, "properties.jsonl"))]
 na_path = os.path.join(HOME, "tools", "not_applicable.json")
 na_reasons = json.load(open(na_path)) if os.path.exists(na_path) else {}
 checks, na = [], []
+reg_path = os.path.join(HOME, "tools", "registered.txt")
+registered = set(open(reg_path).read().split()) if os.path.exists(reg_path) else None
 for p in props:
     pid = p["id"]
     path = os.path.join(HOME, "checks", pid.lower() + ".py")
-    if not os.path.exists(path) or pid in na_reasons:
+    if not os.path.exists(path) or pid in na_reasons or (registered is not None and pid not in registered):
         na.append({"property_id": pid, "reason": na_reasons.get(pid, "check not built yet (work in progress; see DESIGN.md section 3)")})
         continue
     m = importlib.import_module("checks." + pid.lower())
